@@ -195,39 +195,54 @@ def rule_lookup(facts, rep):
               "state_change_ must read STATE_CHANGES[state as usize][byte as usize]", loc(b2))
 
 
+def advance_cases(facts):
+    """advance() evaluated abstractly once per parser state: {state name: [(callee, argument values)...]} — the calls it makes,
+    in order, with process_utf8 / state_change / perform_state_change kept as recorded atoms."""
+    import abseval
+    b = facts.body(cp.CRATE, P + "advance")
+    out = {}
+    for st in vt500.STATES:
+        calls = []
+
+        def rec(name, ret):
+            return lambda a_, name=name, ret=ret: (calls.append((name, list(a_))), ret)[1]
+        ev = abseval.Evaluator(facts, cp.CRATE, {
+            P + "process_utf8": rec("process_utf8", ("unit",)),
+            "anstyle_parse::state::state_change": rec("state_change", ("tuple", ("sym", "next-state"), ("sym", "next-action"))),
+            "anstyle_parse::state::definitions::state_change": rec("state_change", ("tuple", ("sym", "next-state"), ("sym", "next-action"))),
+            P + "perform_state_change": rec("perform_state_change", ("unit",)),
+        })
+        env = abseval.Env()
+        env.update({"self": ("sym", "self"), "self.state": ("enum", cp.STATE + "::" + st), b["params"][1]["name"]: ("sym", "performer"),
+                    b["params"][2]["name"]: ("sym", "byte")})
+        try:
+            ev.ev(b["hir"], env)
+        except abseval.Return:
+            pass
+        out[st] = (calls, list(ev.stores))
+    return out
+
+
 def rule_advance(facts, rep):
     b = facts.body(cp.CRATE, P + "advance")
     rep.fn(b["path"])
-    st = hir.stmts_of(b["hir"])
-    ok_utf8 = False
-    s0 = hir.simp(st[0])
-    if s0.get("k") == "if" and "e" not in s0:
-        c = hir.simp(s0["c"])
-        is_utf8_test = False
-        if c.get("k") == "letexpr" and hir.pat_path(c["pat"]) == cp.STATE + "::Utf8" and self_field(c["init"], "state"):
-            is_utf8_test = True
-        if c.get("k") == "bin" and c["op"] == "Eq" and self_field(c["l"], "state") and hir.is_def(c["r"], "State::Utf8"):
-            is_utf8_test = True
-        body = hir.stmts_of(s0["t"])
-        ok_utf8 = (is_utf8_test and len(body) == 2 and hir.is_call(body[0], "process_utf8")
-                   and hir.is_local(body[0]["args"][2], "byte") and hir.simp(body[1]).get("k") == "ret")
+    try:
+        cases = advance_cases(facts)
+        why = ""
+    except Unrecognised as ex:
+        cases, why = {}, f"not evaluable: {ex}"
+    u = cases.get("Utf8")
+    ok_utf8 = u is not None and u[0] == [("process_utf8", [("sym", "self"), ("sym", "performer"), ("sym", "byte")])] and not u[1]
     rep.check(ok_utf8, "advance", b["path"], "utf8-out-of-band",
-              "in state Utf8 the byte goes to process_utf8 and nothing else happens", loc(b, s0))
-    ok_sc = False
-    if len(st) == 3 and st[1].get("k") == "let":
-        init = hir.simp(st[1]["init"])
-        pat = st[1]["pat"]
-        if (hir.is_call(init, "state::state_change") and self_field(init["args"][0], "state")
-                and hir.is_local(init["args"][1], "byte") and pat.get("k") == "ptuple"
-                and [p.get("name") for p in pat["pats"]] == ["state", "action"]):
-            ok_sc = True
-    rep.check(ok_sc, "advance", b["path"], "table-lookup", "(state, action) = state_change(self.state, byte)", loc(b))
-    ok_psc = False
-    if len(st) == 3:
-        c = hir.simp(st[2])
-        ok_psc = (hir.is_call(c, "perform_state_change") and [hir.local_name(a) for a in c["args"]] ==
-                  ["self", "performer", "state", "action", "byte"])
-    rep.check(ok_psc, "advance", b["path"], "perform", "perform_state_change(self, performer, state, action, byte)", loc(b))
+              f"in state Utf8 the byte goes to process_utf8 and nothing else happens {why} {u if not ok_utf8 else ''}"[:300], loc(b))
+    others = [st for st in vt500.STATES if st != "Utf8"]
+    ok_sc = bool(cases) and all(cases[st][0][:1] == [("state_change", [("enum", cp.STATE + "::" + st), ("sym", "byte")])] for st in others)
+    rep.check(ok_sc, "advance", b["path"], "table-lookup", "in every other state: (state, action) = state_change(self.state, byte) first", loc(b))
+    ok_psc = bool(cases) and all(cases[st][0][1:] == [("perform_state_change", [("sym", "self"), ("sym", "performer"), ("sym", "next-state"),
+                                                                                ("sym", "next-action"), ("sym", "byte")])] and not cases[st][1]
+                                 for st in others)
+    rep.check(ok_psc, "advance", b["path"], "perform", "then perform_state_change(self, performer, state, action, byte) with the looked-up pair, and nothing else", loc(b))
+    rep.count(len(cases))
 
 
 def nm_all_nodes(root):
@@ -924,21 +939,30 @@ def rule_params(facts, rep):
 def rule_utf8(facts, rep):
     b = facts.body(cp.CRATE, P + "process_utf8")
     rep.fn(b["path"])
-    e = hir.simp(b["hir"])
-    while e.get("k") == "block":
-        e = hir.simp(hir.stmts_of(e)[0])
-    ok = False
-    if e.get("k") == "if" and "e" not in e:
-        c = hir.simp(e["c"])
-        if c.get("k") == "letexpr" and hir.last_seg(hir.pat_path(c["pat"])) == "Some":
-            init = hir.simp(c["init"])
-            s = hir.stmts_of(e["t"])
-            a = perform_call(s[0], "print") if s else None
-            ok = (hir.is_call(init, "CharAccumulator::add") and self_field(init["args"][0], "utf8_parser") and hir.is_local(init["args"][1], "byte")
-                  and a is not None and hir.is_local(a[0], "c") and len(s) == 2 and s[1].get("k") == "assign"
-                  and self_field(s[1]["l"], "state") and hir.is_def(s[1]["r"], "State::Ground"))
+    import abseval
+    ok, why = True, ""
+    for complete in (True, False):
+        calls = []
+        ev = abseval.Evaluator(facts, cp.CRATE, {
+            "anstyle_parse::CharAccumulator::add": lambda a_, complete=complete: (calls.append(("add", list(a_))), ("some", ("sym", "c")) if complete else ("none",))[1],
+            "anstyle_parse::Perform::print": lambda a_: (calls.append(("print", list(a_))), ("unit",))[1],
+        })
+        env = abseval.Env()
+        env.update({"self": ("sym", "self"), "self.utf8_parser": ("sym", "acc"), "self.state": ("enum", cp.STATE + "::Utf8"),
+                    b["params"][1]["name"]: ("sym", "performer"), b["params"][2]["name"]: ("sym", "byte")})
+        try:
+            try:
+                ev.ev(b["hir"], env)
+            except abseval.Return:
+                pass
+            want_calls = [("add", [("sym", "acc"), ("sym", "byte")])] + ([("print", [("sym", "performer"), ("sym", "c")])] if complete else [])
+            want_state = ("enum", cp.STATE + ("::Ground" if complete else "::Utf8"))
+            if calls != want_calls or env["self.state"] != want_state:
+                ok, why = False, f"accumulator {'completes' if complete else 'needs more'}: calls {calls}, state {env['self.state']}"
+        except Unrecognised as ex:
+            ok, why = False, f"not evaluable: {ex}"
     rep.check(ok, "utf8", b["path"], "print-on-complete-then-ground",
-              "a completed character is printed once and the state returns to Ground", loc(b))
+              f"the byte goes to the accumulator; a completed character is printed once and the state returns to Ground, otherwise nothing else happens {why}"[:300], loc(b))
     # who reaches process_utf8: only advance (state Utf8) and the BeginUtf8 arm
     callers = set()
     for body in facts.bodies(cp.CRATE):
